@@ -1,5 +1,6 @@
 """C16 — command-line conversions round-trip records for any thread count and flag style."""
 import os
+import struct
 import subprocess
 from vlib import Prop, CaseT, repo_bin, run_impl, hexs
 import bbgen
@@ -86,7 +87,14 @@ class C16(Prop):
                             recs.append((n, s, e, x))
                         else:
                             v = bbgen.bits_f32(x)
-                            f.write(f"{n}\t{s}\t{e}\t{v}\n")
+                            txt = f"{v}"
+                            if k % 3 == 1 and (s + e) % 2 == 0:
+                                # a value written with dozens of digits, next to the midpoint of two single-precision numbers: the
+                                # value that must come back is the single nearest to the DECIMAL text
+                                hb, txt = bbgen.halfway_decimal(r)
+                                v = bbgen.bits_f32(f"{hb:08x}")
+                                rep.tag("value_text_with_30_or_more_digits")
+                            f.write(f"{n}\t{s}\t{e}\t{txt}\n")
                             recs.append((n, s, e, v))
             to_tool, from_tool = ("bedtobigbed", "bigbedtobed") if bed else ("bedgraphtobigwig", "bigwigtobedgraph")
             variants = []
@@ -221,7 +229,7 @@ class C16(Prop):
             if bed:
                 out.append((t[0], int(t[1]), int(t[2]), "\t".join(t[3:])))
             else:
-                out.append((t[0], int(t[1]), int(t[2]), float(t[3])))
+                out.append((t[0], int(t[1]), int(t[2]), struct.unpack("f", struct.pack("f", float(t[3])))[0]))   # the single the text denotes
         return out
 
 
